@@ -198,9 +198,14 @@ class ClassContainer(ContainerInterface):
             step: The step reference number
         """
         self.step = step
-        for obj in self:
-            if obj.status < step:
-                self.process_class(obj, step)
+        pending = True
+        while pending:
+            # Processors may add new classes to the container
+            pending = False
+            for obj in self:
+                if obj.status < step:
+                    self.process_class(obj, step)
+                    pending = True
 
     def process_class(self, target: Class, step: int) -> None:
         """Run the step processors for the given class.
